@@ -31,6 +31,10 @@ fn main() {
         "model" => engines::model::run(&args),
         "crash" => engines::crash::run(&args),
         "conc" => engines::conc::run(&args),
+        "fault" => engines::fault::run(&args),
+        "fault-child" => engines::fault::child(&args),
+        "live" => engines::live::run(&args),
+        "live-child" => engines::live::child(&args),
         "scratch" => engines::scratchpad::run(&args),
         other => {
             eprintln!("unknown engine {other}");
